@@ -223,7 +223,10 @@ template<class T> static void k_shortmix(const In<T>& in,vf::Ctx& c){ TRT
 template<class T> static void k_fastmix(const In<T>& in,vf::Ctx& c){ TRT
 	W nu=1; if(!unit_ok<T>(in.x,nu)||!unit_ok<T>(in.y,nu)) SKIP("not-unit-or-non-finite"); if(!(in.t>=-2&&in.t<=3)) SKIP("t-or-k-out-of-domain");
 	W t=in.t,L[4],n2=0; for(int i=0;i<4;i++){ L[i]=(W)in.x[i]*(1-t)+(W)in.y[i]*t; n2+=L[i]*L[i]; } W n=w_sqrt(n2);
-	if(!(n>=Tr<T>::p2(-6))) SKIP("blend-nearly-zero(antipodal)");
+	if(!(n>=Tr<T>::p2(-6))){ // the direction of a (nearly) vanishing blend is ill-conditioned: only "no NaN / infinity comes back" is judged
+		T g0[4]; outq<T>(glm::fastMix(mkq<T>(in.x),mkq<T>(in.y),in.t),g0); c.cls(n==0? "blend-exactly-zero(antipodal,t=1/2):finiteness-only":"blend-nearly-zero(antipodal):finiteness-only");
+		for(int i=0;i<4;i++) if(!isfinite_b(g0[i])){ c.fail(std::string(n==0? "blend-exactly-zero(antipodal,t=1/2)":"blend-nearly-zero(antipodal)")+":returns-non-finite",sq<T>(g0),"finite quaternion"); break; }
+		return; }
 	T g[4]; outq<T>(glm::fastMix(mkq<T>(in.x),mkq<T>(in.y),in.t),g); std::string pre=std::string(tcls((double)in.t))+":"; c.cls(tcls((double)in.t));
 	for(int i=0;i<4;i++) if(!isfinite_b(g[i])){ c.fail(pre+"returns-non-finite",sq<T>(g),"unit quaternion"); return; }
 	W gl=norm4<T>(g), nb=W(SF*5)*u+4*tiny; rat(c,"unit-length-err/bound",(double)(w_abs(gl-1)/nb));
